@@ -188,6 +188,12 @@ func (g *FuncGen) instr(in ssa.Instruction) {
 	case *ssa.ChangeType:
 		v := g.value(x.X)
 		v.GT = x.Type()
+		if _, isTP := types.Unalias(x.X.Type()).(*types.TypeParam); isTP && c.sortOf(x.Type()) == SIface && v.T != "" {
+			// a value of a type parameter converted to an interface: boxed under the type parameter's tag (its
+			// dynamic type is whatever the instantiation makes it; nothing here depends on it)
+			g.set(x, Val{T: fmt.Sprintf("(mk_iface %d %s)", c.typeTag(x.X.Type()), c.box(v.S, v.T)), S: SIface, GT: x.Type()})
+			return
+		}
 		if c.sortOf(x.Type()) != v.S && v.S != "" {
 			g.unsup("ChangeType between sorts %s -> %s", v.S, c.sortOf(x.Type()))
 		}
